@@ -1,5 +1,5 @@
 """C15 - damaged input never hangs or crashes the parser."""
-import os, sys, json, struct, zlib, random, shutil, subprocess, tempfile, resource, glob
+import hashlib, os, sys, json, struct, zlib, random, shutil, subprocess, tempfile, resource, glob
 from tools import common, battle, recordings, c01, rawdefs
 LEVEL = 'other'
 
@@ -172,7 +172,10 @@ def run(ctx):
         for src in srcs:
             data = open(src, 'rb').read(); ext = src.rsplit('.', 1)[-1]
             base = run_worker(src, 120)
-            if base['outcome'].startswith(('HANG', 'CRASH')) or base['outcome'] in ('exception MemoryError', 'exception RecursionError'):
+            synthetic = src in (syn, syn2, syn3, syn4)
+            if base['outcome'].startswith(('HANG', 'CRASH')) or base['outcome'] in ('exception MemoryError', 'exception RecursionError') \
+               or (synthetic and (base['wall'] > 30 or base['maxrss_kb'] > 1500000 or not base['outcome'].startswith('result hidden=yes'))):
+                base['outcome'] += ' after %.1f s with %d kB peak resident size (a synthetic battle of a few kB)' % (base['wall'], base['maxrss_kb'])
                 keep = os.path.join(common.VERIF, 'evidence', 'replays', 'C15-damaged-%d.%s' % (len(ctx.violations) + 1, src.rsplit('.', 1)[-1])); shutil.copy(src, keep)
                 ctx.violation(dict(kind='damaged-input', source=os.path.basename(src), where='(the source itself: a synthetic battle with every bit of its unsigned mask fields set)', corruption='none',
                                    problem=base['outcome'], file=keep, wall_s=base['wall'], limit_s=120, how='python tools/c15_worker.py <file>'))
@@ -194,7 +197,7 @@ def run(ctx):
                     p = os.path.join(tmp, 'd.' + ext); fast_write(p, ext, raw[0], ds); dmg = open(p, 'rb').read()
                 p = os.path.join(tmp, 'damaged-%d.%s' % (i, ext)); open(p, 'wb').write(dmg)
                 r = run_worker(p, limit)
-                ctx.case(dmg); ctx.count('where:' + where); ctx.count('kind:' + kind.split('+')[0]); ctx.count('outcome:' + r['outcome'].split(' ')[0] + ':' + r['outcome'].split(' ')[1][:24])
+                ctx.case(hashlib.sha1(dmg).hexdigest()); ctx.count('where:' + where); ctx.count('kind:' + kind.split('+')[0]); ctx.count('outcome:' + r['outcome'].split(' ')[0] + ':' + r['outcome'].split(' ')[1][:24])
                 worst['wall'] = max(worst['wall'], r['wall']); worst['rss'] = max(worst['rss'], r['maxrss_kb'])
                 bad = None
                 if r['outcome'].startswith(('HANG', 'CRASH')): bad = r['outcome']
